@@ -22,8 +22,9 @@ import (
 
 type c09Case struct {
 	flowCase
-	Seed      string `json:"seed"`
-	OtherSeed string `json:"other_seed"`
+	Seed      string   `json:"seed"`
+	OtherSeed string   `json:"other_seed"`
+	MoreSeeds []string `json:"more_seeds,omitempty"` // cross-process: the same script is also run with these
 }
 
 type c09Run struct {
@@ -138,13 +139,39 @@ func runC09(c c09Case) Verdict {
 			distinctTexts[ev.Text[strings.IndexAny(ev.Text, "r"):]] = true
 		}
 	}
-	return Verdict{NonTrivial: draws >= 3 && len(distinctTexts) >= 2, Classes: []string{fmt.Sprintf("draw-sites=%s", bucket(draws))}}
+	errs := 0
+	for _, ev := range first.Trace {
+		if ev.K == "err" {
+			errs++
+		}
+	}
+	cls := []string{fmt.Sprintf("draw-sites=%s", bucket(draws))}
+	if errs > 0 {
+		cls = append(cls, "run-with-errors")
+	}
+	return Verdict{NonTrivial: draws >= 3 && (len(distinctTexts) >= 2 || errs > 0), Classes: cls}
 }
 
-var randomScriptOpts = scriptOpts{maxNodes: 3, maxDepth: 3, maxBody: 5, random: true, firstLine: true}
+var randomScriptOpts = scriptOpts{maxNodes: 3, maxDepth: 3, maxBody: 5, random: true, firstLine: true,
+	extraStmt: func(g *scriptGen, depth int) *Stmt {
+		// failing draws: the errors (and their texts) are part of the run and must be the same every time
+		if rapid.IntRange(0, 2).Draw(g.t, "failingdraw") != 0 {
+			return nil
+		}
+		g.lineID++
+		bad := rapid.SampledFrom([]*Expr{call("dice", num("0")), call("random_range", num("5"), num("1")), call("dice", str("six")), call("random_range", varRef("k1")),
+			call("round", str("x")), call("nosuch", num("1"), str("a"))}).Draw(g.t, "bad")
+		return &Stmt{K: "line", Text: []TextPart{{S: fmt.Sprintf("L%d ", g.lineID)}, {E: bad}}}
+	}}
 
 func genSeedLegal(t *rapid.T) string {
-	return rapid.StringMatching(`[0-9a-z]{1,16}`).Draw(t, "seed")
+	switch rapid.IntRange(0, 3).Draw(t, "seedlen") {
+	case 0:
+		return rapid.StringMatching(`[0-9a-z]{13,24}`).Draw(t, "longseed") // beyond what fits an int64 in base 36
+	case 1:
+		return rapid.SampledFrom([]string{"0", "00", "z", "zzzzzzzzzzzz", "zzzzzzzzzzzzz", "1y2p0ij32e8e7", "a0"}).Draw(t, "edgeseed")
+	}
+	return rapid.StringMatching(`[0-9a-z]{1,12}`).Draw(t, "seed")
 }
 
 func genC09(t *rapid.T) c09Case {
@@ -166,9 +193,13 @@ func TestC09Determinism(t *testing.T) { Check(t, c09Determinism) }
 // the same run in a fresh process
 
 func runC09CrossProcess(c c09Case) Verdict {
-	here, err := c09Drive(c, c.Seed)
-	if err != nil {
-		return failf("generated script does not load: %v", err)
+	seeds := append([]string{c.Seed}, c.MoreSeeds...)
+	here := make([]c09Run, len(seeds))
+	for i, seed := range seeds {
+		var err error
+		if here[i], err = c09Drive(c, seed); err != nil {
+			return failf("generated script does not load with seed %q: %v", seed, err)
+		}
 	}
 	raw, _ := json.Marshal(c)
 	path := filepath.Join(outDir(), fmt.Sprintf("c09-child-%s-%d.json", shardName(), os.Getpid()))
@@ -183,25 +214,27 @@ func runC09CrossProcess(c c09Case) Verdict {
 		if err != nil {
 			return Verdict{Discard: "child process failed to run: " + firstLine(string(out))}
 		}
-		var there c09Run
-		found := false
+		var there []c09Run
 		for _, line := range strings.Split(string(out), "\n") {
 			if strings.HasPrefix(line, "C09TRACE ") {
-				if err := json.Unmarshal([]byte(strings.TrimPrefix(line, "C09TRACE ")), &there); err == nil {
-					found = true
+				var r c09Run
+				if err := json.Unmarshal([]byte(strings.TrimPrefix(line, "C09TRACE ")), &r); err == nil {
+					for k, v := range r.Store {
+						v.fix()
+						r.Store[k] = v
+					}
+					there = append(there, r)
 				}
 			}
 		}
-		if !found {
+		if len(there) != len(seeds) {
 			return Verdict{Discard: "child process printed no trace"}
 		}
-		for k, v := range there.Store {
-			v.fix()
-			there.Store[k] = v
-		}
-		if d := here.diff(there); d != "" {
-			return failf("the same script, seed %q and choices give another run in a fresh process (round %d): %s\nscript:\n%s\nin this process:\n%sin the fresh process:\n%s",
-				c.Seed, round, d, joinFiles(renderCanonical(c.Script)), showTrace(here.Trace), showTrace(there.Trace))
+		for i, seed := range seeds {
+			if d := here[i].diff(there[i]); d != "" {
+				return failf("the same script, seed %q and choices give another run in a fresh process (round %d): %s\nscript:\n%s\nin this process:\n%sin the fresh process:\n%s",
+					seed, round, d, joinFiles(renderCanonical(c.Script)), showTrace(here[i].Trace), showTrace(there[i].Trace))
+			}
 		}
 	}
 	return Verdict{NonTrivial: randomDraws(c) >= 3}
@@ -227,15 +260,25 @@ func TestC09Child(t *testing.T) {
 			mrand.Int()
 		}
 	}
-	run, err := c09Drive(c, c.Seed)
-	if err != nil {
-		t.Fatal(err)
+	for _, seed := range append([]string{c.Seed}, c.MoreSeeds...) {
+		run, err := c09Drive(c, seed)
+		if err != nil {
+			t.Fatal(err)
+		}
+		out, _ := json.Marshal(run)
+		fmt.Printf("C09TRACE %s\n", out)
 	}
-	out, _ := json.Marshal(run)
-	fmt.Printf("C09TRACE %s\n", out)
 }
 
-var c09Cross = Register(Prop[c09Case]{ID: "C09", Name: "cross-process", Gen: genC09, Run: runC09CrossProcess, Render: c09Determinism.Render})
+var c09Cross = Register(Prop[c09Case]{ID: "C09", Name: "cross-process",
+	Gen: func(t *rapid.T) c09Case {
+		c := genC09(t)
+		for i := 0; i < 7; i++ {
+			c.MoreSeeds = append(c.MoreSeeds, genSeedLegal(t))
+		}
+		return c
+	},
+	Run: runC09CrossProcess, Render: c09Determinism.Render})
 
 func TestC09CrossProcess(t *testing.T) { Check(t, c09Cross) }
 
